@@ -38,6 +38,7 @@ type Session struct {
 	NSites       int           `json:"nsites"`
 	StopOnViol   bool          `json:"stop_on_violation"`
 	Variant      string        `json:"variant,omitempty"` // which worker binary runs this session ("" = as shipped, "small" = capacity knobs shrunk)
+	Words        []string      `json:"words,omitempty"`   // extra dictionary words (literals new relative to the baseline tree)
 }
 
 type ECall struct {
@@ -168,17 +169,17 @@ func Main(isSQLi func(string) (bool, string), isXSS func(string) bool, globals f
 		defer func() { w.distinct.Flush(); f.Close() }()
 	}
 
-	exec := func(api uint8, in string) (res string) {
+	exec := func(api uint8, in string) (res string, raw string) {
 		defer func() {
 			if r := recover(); r != nil {
-				res = common.EncPanic(r)
+				res, raw = common.EncPanic(r), ""
 			}
 		}()
 		if api == simrt.APISQLi {
 			ok, fp := isSQLi(in)
-			return common.EncSQLi(ok, fp)
+			return common.EncSQLi(ok, fp), fp
 		}
-		return common.EncXSS(isXSS(in))
+		return common.EncXSS(isXSS(in)), ""
 	}
 	w.sim = simrt.NewSim(exec)
 
@@ -248,6 +249,8 @@ func (w *worker) runSession() {
 		w.modeHist()
 	case "family":
 		w.modeFamily()
+	case "repeat":
+		w.modeRepeat()
 	case "rand":
 		for i := 0; i < s.Runs && !w.stop; i++ {
 			seed := simrt.Mix(s.Seed, uint64(s.Worker), uint64(i))
@@ -421,6 +424,14 @@ func (w *worker) execRun(spec *simrt.RunSpec, exp [][]string, first bool) *simrt
 	if res.RaceDelta > 0 {
 		s.RaceReports += int64(res.RaceDelta)
 		report(&Violation{Kind: "race", Detail: fmt.Sprintf("%d data race report(s) during this run", res.RaceDelta), Task: -1, Call: -1})
+	}
+	for k, mv := range res.Mutated {
+		if k >= 2 {
+			break
+		}
+		c := spec.Tasks[mv.Task][mv.Call]
+		report(&Violation{Kind: "mutated", Task: mv.Task, Call: mv.Call, API: c.API, Got: mv.Later, Want: mv.AtReturn,
+			Detail: fmt.Sprintf("the fingerprint returned by %s(%q) read %q when it was returned and %q at the end of the run: a value already handed to the caller changed", apiName(c.API), trunc(c.Input, 100), mv.AtReturn, trunc(mv.Later, 60))})
 	}
 	if res.Deadlock {
 		report(&Violation{Kind: "deadlock", Detail: res.Detail, Task: -1, Call: -1})
@@ -627,17 +638,56 @@ func (w *worker) modeFamily() {
 		first := uint8((w.ses.Seed + uint64(w.ses.Worker)) & 1)
 		var calls []simrt.Call
 		var est int64
-		for pass := 0; pass < 3; pass++ {
+		// pass 0: first API, members in order; pass 1: other API; pass 2/3: the
+		// same in reversed member order (every adjacent pair is seen in both orders)
+		for pass := 0; pass < 4; pass++ {
 			api := first
-			if pass == 1 {
+			if pass&1 == 1 {
 				api = 1 - first
 			}
-			for _, m := range fams[k] {
+			fam := fams[k]
+			for x := range fam {
+				m := fam[x]
+				if pass >= 2 {
+					m = fam[len(fam)-1-x]
+				}
 				calls = append(calls, simrt.Call{API: api, Idx: m, Input: w.c.In[m]})
 				est += w.c.Steps[api][m] + 1
 			}
 		}
 		spec := &simrt.RunSpec{Seed: uint64(k), Tasks: [][]simrt.Call{calls}, Policy: simrt.Policy{Kind: "seq", PoolMode: "lifo"}, Est: est + 64}
 		w.execRun(spec, nil, false)
+	}
+}
+
+// modeRepeat: repetition sweep. Every probe (index range [From,To) over the
+// probe list) is asked Runs times in a row by one task, on each API, then a
+// few other probes are asked once: an answer that changes with the number of
+// times it was asked (adaptive fast paths, promotion counters, trip wires)
+// shows as a mismatch.
+func (w *worker) modeRepeat() {
+	_, probes := HistLists(w.c)
+	reps := w.ses.Runs
+	if reps < 2 {
+		reps = 2
+	}
+	for k := w.ses.From; k < w.ses.To && k < len(probes) && !w.stop; k++ {
+		for api := uint8(0); api < 2 && !w.stop; api++ {
+			p := probes[k]
+			var calls []simrt.Call
+			var est int64
+			for i := 0; i < reps; i++ {
+				calls = append(calls, simrt.Call{API: api, Idx: p, Input: w.c.In[p]})
+			}
+			est = int64(reps) * (w.c.Steps[api][p] + 1)
+			for _, q := range probes {
+				// every probe once afterwards: a verdict frozen for a whole class of
+				// inputs (same fingerprint, same token, same prefix) shows on its siblings
+				calls = append(calls, simrt.Call{API: api, Idx: q, Input: w.c.In[q]})
+				est += w.c.Steps[api][q] + 1
+			}
+			spec := &simrt.RunSpec{Seed: uint64(k)*2 + uint64(api), Tasks: [][]simrt.Call{calls}, Policy: simrt.Policy{Kind: "seq", PoolMode: "lifo"}, Est: est + 64}
+			w.execRun(spec, nil, false)
+		}
 	}
 }
